@@ -100,6 +100,11 @@ class Recorder:
         """Run fn() (a value / raw_text assignment through the model API on `tok`) as ONE event;
         the store-level calls underneath are not logged separately.  Returns the exception or None."""
         tr = self._trace_for(store)
+        pos = 0
+        for k, t in enumerate(store):
+            if t is tok:
+                pos = k + 1
+                break
         self._depth += 1
         exc = None
         try:
@@ -109,9 +114,11 @@ class Recorder:
         finally:
             self._depth -= 1
         if tr is not None:
-            self._observe(tr, store, {'op': 'assign', 'r': self._tid(tr, tok), 'e': 0, 'toks': [],
+            now = list(store)
+            cur = now[pos - 1] if 0 < pos <= len(now) else tok
+            self._observe(tr, store, {'op': 'assign', 'r': self._tid(tr, tok), 'e': 0, 'toks': [], 'apos': pos,
                                       'exc': type(exc).__name__ if exc else '',
-                                      'newtxt': self._txt.setdefault(tok.raw_text if expect_text is None or exc else expect_text,
+                                      'newtxt': self._txt.setdefault((cur.raw_text if expect_text is None else expect_text) if not exc else tok.raw_text,
                                                                   len(self._txt) + 1)})
         return exc
 
